@@ -1,4 +1,5 @@
 import ObiVerif.Lemmas.PairedSteps
+import ObiVerif.Lemmas.PairedStepsLive
 /-!
 # C04 — the goroutine protocol of a paired output: no loss, no duplicate, in order, for every interleaving
 
@@ -108,5 +109,20 @@ example : ∃ s, Reach [0] 1 1 s ∧ Final s := by
   have r15 : Reach [0] 1 1 (⟨[], true, [.done], recv ⟨0, [], []⟩ 0, [0], true, true, none, true, true, [.done], recv ⟨0, [], []⟩ 0, [0], true, true, [0]⟩ : St) :=
     r14.step (.outClose _ (by simp) rfl)
   exact ⟨_, r15, rfl, rfl, rfl⟩
+
+/-- **deadlock freedom**: a reachable state that is not final always has an enabled step, whatever the interleaving so
+far (with at least one formatting worker per writer): the hand-over first writer → `PairedWith()` → second writer →
+consumer cannot get stuck, the `Close` protocol always comes to its end. -/
+theorem paired_no_deadlock (src : List Nat) (N1 N2 : Nat) (hN1 : 0 < N1) (hN2 : 0 < N2) (s : St)
+    (hr : Reach src N1 N2 s) (hnf : ¬ Final s) : ∃ s', Step s s' :=
+  progress hN1 hN2 (reach_inv hr) hnf
+
+/-- **termination**: every interleaving is finite — a run from the initial state has at most
+`8·|src| + N1 + N2 + 7` steps (each step decreases `rank`); with `paired_no_deadlock` every maximal run ends in a final
+state, where `paired_final_in_step` applies. -/
+theorem paired_terminates (src : List Nat) (N1 N2 : Nat) (s : St) (m : Nat) (r : Run (init src N1 N2) s m) :
+    m ≤ rank (init src N1 N2) := by
+  have := run_bounded r
+  omega
 
 end ObiVerif.Props.C04
